@@ -10,7 +10,7 @@ SPEC = dict(
     rule="real ring.go / flowbuffer.go with 1-12 concurrent putters (PutOne and PutMulti, up to 5 commands each), one writer loop "
          "(NextWriteCmd / WaitForWrite) and one reader loop (NextResultCh / send / FinishResult, with spurious polls) on queues of 2 "
          "and 4 slots; ring counters started at 0, 1, 7, 2^31-1 and just below 2^32 (ticket wrap); callers that stop waiting and "
-         "drain in the background; flowbuffer puts with contexts cancelled while waiting for a token. Every recorded trace is "
+         "drain in the background; a scripted buffered-writer scenario (D15: a batch larger than the write buffer); flowbuffer puts with contexts cancelled while waiting for a token. Every recorded trace is "
          "replayed through the LTS (each event must be an enabled transition with the recorded outcome / item; at the end all "
          "slots are free, every command was dequeued and completed once and every caller holds its own result). "
          "Non-trivial = more than the sentinel command; distinct by label sequence.",
@@ -32,7 +32,7 @@ MANIFEST = dict(
          "conservation, FIFO order, non-blocking sends and own results. Safety, lost-wake-up freedom and non-stuckness are proved; "
          "liveness under the real Go scheduler (fair termination) is partial: not claimed. The models are tied to ring.go / "
          "flowbuffer.go by model-based trace validation of real concurrent executions on every run.",
-    note="Queue order is position order (with more than 2N callers a later ticket may occupy an earlier position; replies follow "
+    note="One genuine defect was found (reported by the pipe builder, confirmed by the scripted d15 scenario) and repaired: D15 ring.NextWriteCmd blocked on a slot the reader still held while the writer had unflushed commands (deadlock with a batch larger than the write buffer on a full ring); it now uses TryLock. Queue order is position order (with more than 2N callers a later ticket may occupy an earlier position; replies follow "
          "positions). The wait-condition check and cond.Wait are one model step (justified in Model/Ring.v). Trusted: Coq kernel + VM, "
          "Go runtime semantics of Mutex/Cond/channels as modelled, the trace hooks and the observer's re-ordering of lock-free events.",
     technique="Coq proof (invariants by induction over run of a labelled transition system) + model-based trace validation",
